@@ -120,6 +120,30 @@ pub fn gen_ptype(rng: &mut Rng, c: &StrCfg, near: u32, big: u32) -> PType {
     }
 }
 
+/// A type with one collection large enough to cross the codec's 16 KiB
+/// pre-allocation chunk for its element type (so that decoding it takes the
+/// multi-chunk path), elements as small as possible.
+pub fn gen_bulk_ptype(rng: &mut Rng, near: u32) -> PType {
+    let id = |rng: &mut Rng| rng.below(near as u64 + 1) as u32;
+    let fld = |rng: &mut Rng| PField { name: None, ty: id(rng), type_name: None, docs: vec![] };
+    let mut t = PType { path: vec![], params: vec![], def: PDef::Primitive(0), docs: vec![] };
+    match rng.below(6) {
+        0 => t.docs = vec![String::new(); rng.range(683, 1500) as usize],
+        1 => t.def = PDef::Tuple((0..rng.range(4097, 9000)).map(|_| id(rng)).collect()),
+        2 => t.def = PDef::Composite((0..rng.range(200, 700)).map(|_| fld(rng)).collect()),
+        3 => {
+            t.def = PDef::Variant(
+                (0..rng.range(200, 700))
+                    .map(|i| PVariant { name: String::new(), fields: vec![], index: i as u8, docs: vec![] })
+                    .collect(),
+            )
+        }
+        4 => t.path = vec!["p".to_string(); rng.range(683, 1500) as usize],
+        _ => t.params = (0..rng.range(400, 900)).map(|_| (String::new(), Some(id(rng)))).collect(),
+    }
+    t
+}
+
 pub fn generate(rng: &mut Rng) -> TabScenario {
     let cfg = TabCfg {
         pool_size: *rng.pick(&[1u8, 2, 3, 5, 8, 16, 40]),
